@@ -8,6 +8,7 @@ CONSTANTS
   MaxFaults = 1
   MaxRestarts = 1
   MaxProbes = 1
+  MaxHolds = 1
   MaxNoops = 1
   WithSettle = TRUE
   PauseAtomic = TRUE
@@ -16,4 +17,5 @@ CONSTANTS
   PollerExits = TRUE
   SharedKept = TRUE
   JoinedStopped = TRUE
+  LateRegisterChecked = TRUE
   BarrierExits = TRUE
